@@ -1,5 +1,6 @@
 import Driver.Util
 import InfluxVerif.Spec.Shard
+import InfluxVerif.Model.Meta
 namespace Driver.ShardD
 open InfluxVerif.ShardSpec
 
@@ -84,6 +85,17 @@ partial def step (s : St) (line : String) : St × String :=
       (s', showWrite r)
     | _, _, _, _ => (s, "bad-op")
   | ["snap"] => (s, "ok")
+  | ["cowner", owners, node] =>
+    match (if owners = "-" then some [] else allSome ((owners.splitOn ",").map String.toNat?)), node.toNat? with
+    | some os, some n =>
+      let r := InfluxVerif.Meta.insertOwner n os
+      (s, "owners " ++ (if r.isEmpty then "-" else ",".intercalate (r.map toString)))
+    | _, _ => (s, "bad-op")
+  | ["tarfault", n, k] =>
+    match n.toNat?, k.toNat? with
+    | some n, some k => (s, if k < n then "refused" else "complete")
+    | _, _ => (s, "bad-op")
+  | ["snapfail"] => (s, "ok")       -- a snapshot attempt that fails changes nothing
   | ["bk", mode, series, fields] =>
     -- the restored shard reads like the source at the time of the backup (restricted to the
     -- window for a time-bounded export)
